@@ -33,6 +33,8 @@ type Engine struct {
 	solverLog       string
 	dumpQueries     string
 
+	hashAxioms bool
+	fixedWitness map[string]string
 	bigIntType types.Type
 	initAllow  []string
 	initDeny   []string
